@@ -57,3 +57,77 @@ UNITS = [
     Unit('C15_transpose', 'C15', [is_matrix, transpose, mt, mt_mut], use=_core_all, types=core.TYPES, spec=SPEC, type_spec=core.TYPE_SPEC,
          preludes=PRE, broadcast=BC, notes='is_matrix, slice transpose (nested push loops), Matrix::t and t_mut: every entry lands at the transposed position'),
 ]
+
+# ---------------------------------------------------------------- element access / extraction
+flat_idx = Fn(IM + 'flat_idx', ret='r', valid='idx < self.nrows * self.ncols', panics={1: 'REJECT'},
+              requires=['C15.flat_idx.wf:: wf(*self)'],
+              ensures=['C15.flat_idx.valid:: idx < self.nrows * self.ncols', 'C15.flat_idx.view:: r == self.data.v@[idx as int]'])
+flat_idx_replace = Fn(IM + 'flat_idx_replace', ret='r', valid='idx < old(self).nrows * old(self).ncols', panics={1: 'REJECT'},
+                      requires=['C15.flat_idx_replace.wf:: wf(*old(self))'],
+                      ensures=['C15.flat_idx_replace.valid:: idx < old(self).nrows * old(self).ncols',
+                               'C15.flat_idx_replace.view:: r.data.v@ == old(self).data.v@.update(idx as int, val) && r.nrows == old(self).nrows && r.ncols == old(self).ncols',
+                               'C15.flat_idx_replace.ret:: *final(r) == *final(self)'])
+get_col = Fn(IM + 'get_col_as_vector', ret='v', valid='col < self.ncols', panics={1: 'REJECT'},
+             attrs=['#[verifier::loop_isolation(false)]'],
+             requires=['C15.get_col.wf:: wf(*self)'],
+             ensures=['C15.get_col.valid:: col < self.ncols', 'C15.get_col.len:: v.v@.len() == self.nrows',
+                      'C15.get_col.view:: forall|i: int| 0 <= i < self.nrows ==> v.v@[i] == at2(self.data.v@, self.ncols as int, i, col as int)'],
+             loops={1: {'invariant': ['v.v@.len() == self.nrows',
+                                      'C15.get_col.sofar:: forall|k: int| 0 <= k < i ==> v.v@[k] == at2(self.data.v@, self.ncols as int, k, col as int)'],
+                        'body_start': 'lemma_idx(i as int, col as int, self.nrows as int, self.ncols as int); lemma_row(i as int, self.nrows as int, self.ncols as int);'}})
+mdiag = Fn(IM + 'diag', ret='d', attrs=['#[verifier::loop_isolation(false)]'],
+           requires=['C15.diag.wf:: wf(*self)'],
+           ensures=['C15.diag.len:: d.v@.len() == (if self.nrows <= self.ncols { self.nrows } else { self.ncols })',
+                    'C15.diag.view:: forall|i: int| 0 <= i < d.v@.len() ==> d.v@[i] == at2(self.data.v@, self.ncols as int, i, i)'],
+           loops={1: {'invariant': ['n == (if self.nrows <= self.ncols { self.nrows } else { self.ncols })', 'diag.v@.len() == i',
+                                    'C15.diag.sofar:: forall|k: int| 0 <= k < i ==> diag.v@[k] == at2(self.data.v@, self.ncols as int, k, k)'],
+                      'body_start': 'lemma_idx(i as int, i as int, self.nrows as int, self.ncols as int);'}})
+eye = Fn(IM + 'eye', ret='m', attrs=['#[verifier::loop_isolation(false)]'],
+         requires=['C15.eye.range:: dims <= i32max() && dims * dims <= i32max()'],
+         ensures=['C15.eye.shape:: m.nrows == dims && m.ncols == dims && wf(m)',
+                  'C15.eye.view:: forall|i: int, j: int| 0 <= i < dims && 0 <= j < dims ==> #[trigger] at2(m.data.v@, dims as int, i, j) == (if i == j { 1.0f64 } else { 0.0f64 })'],
+         loops={1: {'invariant': ['m.nrows == dims && m.ncols == dims && wf(m)',
+                                  'C15.eye.sofar:: forall|r: int, c: int| 0 <= r < dims && 0 <= c < dims ==> #[trigger] at2(m.data.v@, dims as int, r, c) == (if r == c && r < i { 1.0f64 } else { 0.0f64 })'],
+                    'body_ghost': 'let ghost pre_m = m.data.v@;', 'body_start': 'lemma_idx(i as int, i as int, dims as int, dims as int);',
+                    'body_end': 'assert forall|r: int, c: int| 0 <= r < dims && 0 <= c < dims implies #[trigger] at2(m.data.v@, dims as int, r, c) == (if r == c && r < i + 1 { 1.0f64 } else { 0.0f64 }) by { lemma_idx(r, c, dims as int, dims as int); if r * dims + c == i * dims + i { lemma_idx_inj(r, c, i as int, i as int, dims as int); } assert(at2(pre_m, dims as int, r, c) == (if r == c && r < i { 1.0f64 } else { 0.0f64 })); }'}},
+         hints=[('for i in 0..dims', 'before', 'proof { assert forall|r: int, c: int| 0 <= r < dims && 0 <= c < dims implies #[trigger] at2(m.data.v@, dims as int, r, c) == 0.0f64 by { lemma_idx(r, c, dims as int, dims as int); } }')])
+
+UNITS.append(Unit('C15_access', 'C15', [flat_idx, flat_idx_replace, get_col, mdiag, eye], use=_core_all, types=core.TYPES, spec=SPEC,
+                  type_spec=core.TYPE_SPEC, preludes=PRE, broadcast=BC,
+                  notes='flat / column / diagonal extraction and the identity constructor against the row-major reference position'))
+
+# ---------------------------------------------------------------- concatenation
+HC_W = '(self.ncols + other.ncols) as int'
+hcat = Fn(IM + 'hcat', ret='r', valid='self.nrows == other.nrows', panics={1: 'REJECT'}, attrs=['#[verifier::loop_isolation(false)]'],
+          requires=['C15.hcat.wf:: wf(*self) && wf(other)', 'C15.hcat.range:: self.nrows * (self.ncols + other.ncols) <= i32max() && self.ncols + other.ncols <= i32max()'],
+          ensures=['C15.hcat.valid:: self.nrows == other.nrows',
+                   'C15.hcat.shape:: r.nrows == self.nrows && r.ncols == self.ncols + other.ncols && wf(r)',
+                   'C15.hcat.left:: forall|i: int, j: int| 0 <= i < self.nrows && 0 <= j < self.ncols ==> #[trigger] at2(r.data.v@, %s, i, j) == at2(self.data.v@, self.ncols as int, i, j)' % HC_W,
+                   'C15.hcat.right:: forall|i: int, j: int| 0 <= i < self.nrows && 0 <= j < other.ncols ==> #[trigger] at2(r.data.v@, %s, i, self.ncols + j) == at2(other.data.v@, other.ncols as int, i, j)' % HC_W],
+          loops={
+              1: {'invariant': ['new_vec.v@.len() == i * (self.ncols + other.ncols)',
+                                'C15.hcat.rows_done:: forall|ii: int, jj: int| 0 <= ii < i && 0 <= jj < self.ncols + other.ncols ==> #[trigger] at2(new_vec.v@, %s, ii, jj) == (if jj < self.ncols { at2(self.data.v@, self.ncols as int, ii, jj) } else { at2(other.data.v@, other.ncols as int, ii, jj - self.ncols) })' % HC_W],
+                  'body_start': 'lemma_row(i as int, self.nrows as int, %s);' % HC_W,
+                  'body_end': ('assert forall|ii: int, jj: int| 0 <= ii < i + 1 && 0 <= jj < self.ncols + other.ncols implies #[trigger] at2(new_vec.v@, {W}, ii, jj) == (if jj < self.ncols {{ at2(self.data.v@, self.ncols as int, ii, jj) }} else {{ at2(other.data.v@, other.ncols as int, ii, jj - self.ncols) }}) by {{ if ii == i && jj >= self.ncols {{ assert(at2(new_vec.v@, {W}, i as int, self.ncols + (jj - self.ncols)) == at2(other.data.v@, other.ncols as int, i as int, jj - self.ncols)); }} }}').format(W=HC_W)},
+              2: {'invariant': ['new_vec.v@.len() == i * (self.ncols + other.ncols) + j', '0 <= i < self.nrows',
+                                'C15.hcat.rows_done.l:: forall|ii: int, jj: int| 0 <= ii < i && 0 <= jj < self.ncols + other.ncols ==> #[trigger] at2(new_vec.v@, %s, ii, jj) == (if jj < self.ncols { at2(self.data.v@, self.ncols as int, ii, jj) } else { at2(other.data.v@, other.ncols as int, ii, jj - self.ncols) })' % HC_W,
+                                'C15.hcat.row_left:: forall|jj: int| 0 <= jj < j ==> #[trigger] at2(new_vec.v@, %s, i as int, jj) == at2(self.data.v@, self.ncols as int, i as int, jj)' % HC_W],
+                  'body_ghost': 'let ghost pre_v = new_vec.v@;',
+                  'body_start': 'lemma_idx(i as int, j as int, self.nrows as int, self.ncols as int);',
+                  'body_end': ('assert forall|ii: int, jj: int| 0 <= ii < i && 0 <= jj < self.ncols + other.ncols implies #[trigger] at2(new_vec.v@, {W}, ii, jj) == (if jj < self.ncols {{ at2(self.data.v@, self.ncols as int, ii, jj) }} else {{ at2(other.data.v@, other.ncols as int, ii, jj - self.ncols) }}) by {{ lemma_idx(ii, jj, i as int, {W}); assert(at2(pre_v, {W}, ii, jj) == at2(new_vec.v@, {W}, ii, jj)); }} '
+                               'assert forall|jj: int| 0 <= jj < j + 1 implies #[trigger] at2(new_vec.v@, {W}, i as int, jj) == at2(self.data.v@, self.ncols as int, i as int, jj) by {{ if jj < j {{ assert(at2(pre_v, {W}, i as int, jj) == at2(new_vec.v@, {W}, i as int, jj)); }} }}').format(W=HC_W)},
+              3: {'invariant': ['new_vec.v@.len() == i * (self.ncols + other.ncols) + self.ncols + j', '0 <= i < self.nrows',
+                                'C15.hcat.rows_done.r:: forall|ii: int, jj: int| 0 <= ii < i && 0 <= jj < self.ncols + other.ncols ==> #[trigger] at2(new_vec.v@, %s, ii, jj) == (if jj < self.ncols { at2(self.data.v@, self.ncols as int, ii, jj) } else { at2(other.data.v@, other.ncols as int, ii, jj - self.ncols) })' % HC_W,
+                                'C15.hcat.row_left.r:: forall|jj: int| 0 <= jj < self.ncols ==> #[trigger] at2(new_vec.v@, %s, i as int, jj) == at2(self.data.v@, self.ncols as int, i as int, jj)' % HC_W,
+                                'C15.hcat.row_right:: forall|jj: int| 0 <= jj < j ==> #[trigger] at2(new_vec.v@, %s, i as int, self.ncols + jj) == at2(other.data.v@, other.ncols as int, i as int, jj)' % HC_W],
+                  'body_ghost': 'let ghost pre_v = new_vec.v@;',
+                  'body_start': 'lemma_idx(i as int, j as int, other.nrows as int, other.ncols as int);',
+                  'body_end': ('assert forall|ii: int, jj: int| 0 <= ii < i && 0 <= jj < self.ncols + other.ncols implies #[trigger] at2(new_vec.v@, {W}, ii, jj) == (if jj < self.ncols {{ at2(self.data.v@, self.ncols as int, ii, jj) }} else {{ at2(other.data.v@, other.ncols as int, ii, jj - self.ncols) }}) by {{ lemma_idx(ii, jj, i as int, {W}); assert(at2(pre_v, {W}, ii, jj) == at2(new_vec.v@, {W}, ii, jj)); }} '
+                               'assert forall|jj: int| 0 <= jj < self.ncols implies #[trigger] at2(new_vec.v@, {W}, i as int, jj) == at2(self.data.v@, self.ncols as int, i as int, jj) by {{ assert(at2(pre_v, {W}, i as int, jj) == at2(new_vec.v@, {W}, i as int, jj)); }} '
+                               'assert forall|jj: int| 0 <= jj < j + 1 implies #[trigger] at2(new_vec.v@, {W}, i as int, self.ncols + jj) == at2(other.data.v@, other.ncols as int, i as int, jj) by {{ if jj < j {{ assert(at2(pre_v, {W}, i as int, self.ncols + jj) == at2(new_vec.v@, {W}, i as int, self.ncols + jj)); }} }}').format(W=HC_W)},
+          },
+          hints=[('for i in 0..self.nrows', 'before', 'proof { assert(0 * (self.ncols + other.ncols) == 0) by(nonlinear_arith); }'),
+                 ('Matrix::new(new_vec,', 'before', 'proof { assert(self.nrows * (self.ncols + other.ncols) == new_vec.v@.len()); }')])
+
+UNITS.append(Unit('C15_concat', 'C15', [hcat], use=_core_all, types=core.TYPES, spec=SPEC, type_spec=core.TYPE_SPEC, preludes=PRE, broadcast=BC,
+                  notes='horizontal concatenation: every entry of both operands lands at its row-major position'))
